@@ -18,6 +18,8 @@ def styles_for(ts):
         s += ['tuple', 'object+pairs']
     if any(c in flat for c in 'ynqiuxtog'):
         s.append('wrapped')
+    if any(c in flat for c in 'a(ynqiuxtogsd'):
+        s.append('subclassed')
     return s
 
 
